@@ -369,13 +369,17 @@ def describe(tier, agg):
     return {
         'rule': 'case = one diagnostic() call inside a history of 6-14 operations in one process '
                 '(plots of 3 pooled chunks at the four upto levels with seeded show_ceilos / '
-                'reference METAR / origin / show / stem / formats, user rcParams edits incl. '
-                'short colour cycles, user-owned figures); evaluations counts plot calls; every '
+                'reference METAR / origin / show / stem (plain, dotted, spaced, nested, absolute, '
+                'str or Path) / formats, user rcParams edits incl. short colour cycles, '
+                'user-owned figures, user backend switch, MPL_STYLE changes incl. a LaTeX-style '
+                'plot earlier in the process); evaluations counts plot calls; every '
                 'plot call is checked, so non-trivial = every plot call; distinct = distinct '
                 '(chunk rows, plot arguments)',
         'assumptions': [
-            'Agg backend; no LaTeX in the sandbox: under MPL_STYLE latex / metsymb figures are '
-            'built and closed but never rendered (no file, no show); base / None otherwise',
+            'non-interactive backends only (Agg, or svg / pdf / ps / template chosen by the '
+            'scripted user at the start of a third of the histories); no LaTeX in the sandbox: '
+            'under MPL_STYLE latex / metsymb figures are built and closed but never rendered (no '
+            'file, no show); base / None otherwise',
             'text arguments are METAR-like tokens, ISO dates and plain names (no mathtext '
             'metacharacters): that is an input-domain question, not a history question',
             'no fault is injected into savefig: the statement says nothing about failing writes',
